@@ -224,6 +224,10 @@ let run (path : string) : unit =
   let sp = ref M.cstate0 in        (* abstract map *)
   let spawns : M.spawn Queue.t = Queue.create () in
   let last_name = ref "" and last_dead = ref false in
+  (* the next operation sampled the clock before a maintenance run that happened at a later clock value
+     (a two-thread interleaving): the concrete model must still agree exactly, the sequential abstract
+     map is not an oracle for it and is resynchronised from the concrete state afterwards *)
+  let stale = ref false in
   (* --- closed-loop policy replay (maint mode) *)
   let maint = ref false in
   let cur_max : Z.t option ref = ref None in
@@ -278,6 +282,7 @@ let run (path : string) : unit =
   iter_lines path (fun ln toks ->
       match toks with
       | "#" :: _ -> ()
+      | "STALE" :: _ -> stale := true; count "stale_writes"
       | "C" :: rest ->
           if not (Queue.is_empty spawns) then
             mismatch "seq" ln "a refresh task the model expects was never executed (%d pending)" (Queue.length spawns);
@@ -381,7 +386,10 @@ let run (path : string) : unit =
                let (st', r) = M.step c !st o in
                let (sp', rs) = M.spec_step c !sp o in
                let st_before = !st in
-               st := st'; sp := sp';
+               let was_stale = !stale && not is_auto in
+               if was_stale then stale := false;
+               let rs = if was_stale then r else rs in
+               st := st'; sp := (if was_stale then st' else sp');
                if !maint && not is_auto then begin
                  (match p.key with
                   | Some k ->
